@@ -21,6 +21,10 @@ type Tap struct {
 	src   io.Reader
 	draws []Draw
 	prev  io.Reader
+	// Short, when set, makes the tap a healthy but short-reading generator:
+	// a Read asking for want bytes delivers Short(want) of them (at least one)
+	// with a nil error, as io.Reader allows.
+	Short func(want int) int
 }
 
 // InstallTap swaps crypto/rand.Reader; src == nil means "tee the real CSPRNG".
@@ -38,6 +42,15 @@ func InstallTap(src io.Reader) *Tap {
 func (t *Tap) Read(p []byte) (int, error) {
 	t.mu.Lock()
 	defer t.mu.Unlock()
+	if t.Short != nil && len(p) > 0 {
+		k := t.Short(len(p))
+		if k < 1 {
+			k = 1
+		}
+		if k < len(p) {
+			p = p[:k]
+		}
+	}
 	n, err := io.ReadFull(t.src, p)
 	t.draws = append(t.draws, Draw{Seq: len(t.draws), Bytes: append([]byte(nil), p[:n]...)})
 	return n, err
